@@ -13,6 +13,8 @@ import (
 	"fmt"
 	"strings"
 
+	"go/types"
+
 	"golang.org/x/tools/go/ssa"
 )
 
@@ -113,5 +115,52 @@ func reachableAfter(b *ssa.BasicBlock, idx int) func(ssa.Instruction) bool {
 			}
 		}
 		return false
+	}
+}
+
+// Rule "ordered-iteration": the listed functions decide the content of generated
+// output; none of them may iterate over a Go map (whose order is random), nor may a
+// closure inside them. One obligation per function.
+func orderedIterationSweep(p *Prog, prop string, rr *RunResult) {
+	tags := p.CS.Rules["ordered-iteration"]
+	if !contains(tags, prop) {
+		return
+	}
+	for _, k := range p.CS.RuleArgs["ordered-iteration"] {
+		fn := p.FnByKey[k]
+		if fn == nil {
+			rr.Unbound = append(rr.Unbound, k)
+			continue
+		}
+		where := ""
+		var scan func(f *ssa.Function)
+		scan = func(f *ssa.Function) {
+			for _, b := range f.Blocks {
+				for _, in := range b.Instrs {
+					if r, ok := in.(*ssa.Range); ok {
+						if _, isMap := r.X.Type().Underlying().(*types.Map); isMap && where == "" {
+							where = p.SSA.Fset.Position(r.Pos()).String()
+						}
+					}
+				}
+			}
+			for _, a := range f.AnonFuncs {
+				scan(a)
+			}
+		}
+		scan(fn)
+		e := newExec(p, dispName(fn))
+		e.fn = fn
+		goal, desc := "true", "no iteration over a map in "+dispName(fn)+" (its result goes into generated output)"
+		if where != "" {
+			goal = "false"
+			desc += " (map range at " + where + ")"
+		}
+		st := &State{reach: "true"}
+		o := e.obligeNoAssume(st, "ordered-iteration", "discipline", tags, goal, desc, fn.Pos())
+		o.Pos = posOf(p, fn.Pos())
+		rr.Execs = append(rr.Execs, e)
+		rr.Functions = append(rr.Functions, e.name+" (ordered-iteration rule)")
+		rr.Obls = append(rr.Obls, e.obls...)
 	}
 }
